@@ -101,7 +101,7 @@ def bcRevMany : List Nat → List (List Nat) → Except Err (List Nat)
 def broadcastMany (shapes : List (List Nat)) : Except Err (List Nat) :=
   (bcRevMany [] shapes).map List.reverse
 
-/-! ### parse_ellipsis / parse_slice -/
+/-! ### parse_ellipsis / slice.indices -/
 
 def takeUntilEllipsis : List IdxPart → List IdxPart
   | [] => []
@@ -118,20 +118,36 @@ def dropThroughEllipsis : List IdxPart → List IdxPart
 def parseEllipsis (index : List IdxPart) : List IdxPart × List IdxPart :=
   (takeUntilEllipsis index, (takeUntilEllipsis (dropThroughEllipsis index).reverse).reverse)
 
-def clipPos (size : Nat) (v : Option Int) (dflt : Int) : Int :=
+/-- one bound of `slice.indices(length)` (CPython `PySlice_AdjustIndices`):
+    negative values count from the end, then clip to `[lower, upper]`. -/
+def clipBound (length : Nat) (v : Option Int) (dflt lower upper : Int) : Int :=
   match v with
   | none => dflt
-  | some s => if 0 ≤ s then min (size : Int) s else max 0 ((size : Int) + s)
+  | some s =>
+    if s < 0 then max (s + (length : Int)) lower
+    else min s upper
 
-/-- `parse_slice(s, size)` -/
-def parseSlice (a b c : Option Int) (size : Nat) : Int × Int × Int :=
-  (clipPos size a 0, clipPos size b size, c.getD 1)
+/-- `slice(a, b, c).indices(length)`; a zero step raises ValueError. -/
+def sliceIndices (a b c : Option Int) (length : Nat) : Except Err (Int × Int × Int) :=
+  let step := c.getD 1
+  if step = 0 then .error .value
+  else
+    let lower : Int := if step < 0 then -1 else 0
+    let upper : Int := if step < 0 then (length : Int) - 1 else length
+    let start := clipBound length a (if step < 0 then upper else lower) lower upper
+    let stop := clipBound length b (if step < 0 then lower else upper) lower upper
+    .ok (start, stop, step)
 
-/-- `max(0, (stop - start + step - 1) // step)` (Python floor division; step 0 raises) -/
+/-- `len(range(start, stop, step))` -/
+def rangeLen (start stop step : Int) : Nat :=
+  if 0 < step then (if start < stop then ((stop - start - 1) / step + 1).toNat else 0)
+  else (if stop < start then ((start - stop - 1) / (-step) + 1).toNat else 0)
+
+/-- `len(range(*part.indices(size)))` (domains.py, both loops of `_find_domain_getslice`) -/
 def sliceLen (a b c : Option Int) (size : Nat) : Except Err Nat :=
-  let (start, stop, step) := parseSlice a b c size
-  if step = 0 then .error .zeroDiv
-  else .ok (max 0 (Int.fdiv (stop - start + step - 1) step)).toNat
+  match sliceIndices a b c size with
+  | .error e => .error e
+  | .ok (start, stop, step) => .ok (rangeLen start stop step)
 
 /-- the loop over `left`: position `i` counts from the front. -/
 def sliceLeft : List IdxPart → Nat → List Nat → Except Err (List Nat)
@@ -561,7 +577,7 @@ def tensorOutputShape (dataShape : List Nat) (nb : Nat) : List Nat := dataShape.
 /-- `eager_reduction_tensor`: the axis passed to the array op on data with batch dims in front. -/
 def eagerReductionAxis (axis : Axis) (ndims : Nat) : Axis :=
   match axis with
-  | .all => .many ((List.range ndims).map fun i => (i : Int) - ndims)
+  | .all => .many ((List.range ndims).map fun (i : Nat) => (i : Int) - (ndims : Int))
   | .one a => .one (a % (ndims : Int) - ndims)
   | .many l => .many (l.map fun d => d % (ndims : Int) - ndims)
 
